@@ -11,6 +11,8 @@ import tlegen
 
 ID = "C15"
 LEAN_TARGETS = ["PV.Props.C15"]
+# T-D: functions translated from the source by harness/pytrans.py, proved equal to the model (DESIGN section 0)
+EQUIV = {"PV.Equiv.TranslatedDb": ["init_eq", "dbExecute_create", "updateResult_updateOp", "update_db_eq"]}
 RULE = ("random operation histories of length <= 12 over {update(tle, source), crashed update, export(write_always, "
         "write_name), close+reopen} with 1-4 configured platforms plus unconfigured satellites, epochs drawn from a "
         "cluster around one instant (whole second, +-1 us, .100000, +1 s, previous second .999999, other day/year) so "
